@@ -17,7 +17,7 @@ def run(ctx):
     tlc.stage(ctx)
     # (1) design level: exhaustive TLC with deadlock checking on
     states = trans = 0
-    insts = ["A", "B", "C"] if thorough else ["BQ", "C"]
+    insts = ["A", "B", "C"] if thorough else ["BQ"]
     mc = []
     for x in insts:
         cfg = tlc.subst_cfg("C15_MC.cfg", replace=[("X_", x + "_")])
